@@ -305,7 +305,7 @@ def termBNode (C : Cfg) (e : End) (env : Env) (inp : List Nat) : TermRes :=
   match C.P.bnode e inp with
   | .panic => .panic
   | .err c => .err (ofTok c)
-  | .ok l rest => let (b, env') := env.labelled l; .ok b rest env'
+  | .ok l rest => .ok (env.labelled l).1 rest (env.labelled l).2
 
 /-- `reader_scan_triplesOrGraph_labelOrSubject_*` (TriG): token, then `E1`. -/
 def labelOrSubject (x : Ectx) : TermRes → FnRes
@@ -337,73 +337,75 @@ def stepWrappedGraph (e : End) (x : Ectx) (env : Env) : Arg → FnRes
     if c ≠ 0x7b then .err .syntax
     else .ok { cur := some ⟨x, .triplesBlock⟩, push := [⟨x, .wrappedGraphEnd⟩], inp := rest, env := env }
 
-/-- `reader_scanStatement` / `reader_scan_trigDoc` after the EOF test, without the self push. -/
-def stepStatementRune (C : Cfg) (e : End) (x : Ectx) (env : Env) (c : Nat) (rest : List Nat) : FnRes :=
-  if c = 0x40 then                                   -- '@'
-    match rest with
+/-- `case '@'`: `rest` is the input after the `@`. -/
+def stepAtDirective (e : End) (x : Ectx) (env : Env) (rest : List Nat) : FnRes :=
+  match rest with
+  | [] => .err (endCls e)
+  | r1 :: rest1 =>
+    if r1 = 0x62 then                              -- "@b" ase
+      match matchKw (kwExact "ase") rest1 with
+      | .eoi => .err (endCls e)
+      | .mismatch => .err .syntax
+      | .ok r => .ok { cur := some ⟨x, .atBaseIRI⟩, inp := r, env := env }
+    else if r1 = 0x70 then                         -- "@p" refix
+      match matchKw (kwExact "refix") rest1 with
+      | .eoi => .err (endCls e)
+      | .mismatch => .err .syntax
+      | .ok r => .ok { cur := some ⟨x, .atPrefixNS⟩, inp := r, env := env }
+    else .err .syntax
+
+/-- `case 'B', 'b'`. -/
+def stepKwBase (C : Cfg) (e : End) (x : Ectx) (env : Env) (c : Nat) (rest : List Nat) : FnRes :=
+  match matchKw (kwCI "ASE") rest with
+  | .eoi => .err (endCls e)
+  | .mismatch => kwFallback C e x env (c :: rest)
+  | .ok r =>
+    match r with
     | [] => .err (endCls e)
-    | r1 :: rest1 =>
-      if r1 = 0x62 then                              -- "@b" ase
-        match matchKw (kwExact "ase") rest1 with
-        | .eoi => .err (endCls e)
-        | .mismatch => .err .syntax
-        | .ok r => .ok { cur := some ⟨x, .atBaseIRI⟩, inp := r, env := env }
-      else if r1 = 0x70 then                         -- "@p" refix
-        match matchKw (kwExact "refix") rest1 with
-        | .eoi => .err (endCls e)
-        | .mismatch => .err .syntax
-        | .ok r => .ok { cur := some ⟨x, .atPrefixNS⟩, inp := r, env := env }
-      else .err .syntax
-  else if c = 0x42 ∨ c = 0x62 then                   -- 'B' 'b'
-    match matchKw (kwCI "ASE") rest with
-    | .eoi => .err (endCls e)
-    | .mismatch => kwFallback C e x env (c :: rest)
-    | .ok r =>
-      match r with
-      | [] => .err (endCls e)
-      | r4 :: rest4 =>
-        if r4 = 0x3c then .ok { cur := some ⟨x, .sparqlBaseIRI⟩, inp := r4 :: rest4, env := env }
-        else if !C.isSpace r4 then kwFallback C e x env (c :: rest)
-        else .ok { cur := some ⟨x, .sparqlBaseIRI⟩, inp := rest4, env := env }
-  else if c = 0x50 ∨ c = 0x70 then                   -- 'P' 'p'
-    match matchKw (kwCI "REFIX") rest with
-    | .eoi => .err (endCls e)
-    | .mismatch => kwFallback C e x env (c :: rest)
-    | .ok r =>
-      match r with
-      | [] => .err (endCls e)
-      | r6 :: rest6 =>
-        if !C.isSpace r6 then kwFallback C e x env (c :: rest)
-        else .ok { cur := some ⟨x, .sparqlPrefixNS⟩, inp := rest6, env := env }
-  else if C.trig ∧ (c = 0x47 ∨ c = 0x67) then        -- 'G' 'g' (TriG)
-    match matchKw (kwCI "RAPH") rest with
-    | .eoi => .err (endCls e)
-    | .mismatch => kwFallback C e x env (c :: rest)
-    | .ok r =>
-      match r with
-      | [] => .err (endCls e)
-      | r5 :: rest5 =>
-        if !C.isSpace r5 then kwFallback C e x env (c :: rest)
-        else .ok { cur := some ⟨x, .graphLabel⟩, inp := rest5, env := env }
-  else if C.trig ∧ c = 0x7b then                     -- '{' (TriG)
-    stepWrappedGraph e x env (.rune c rest)
-  else if c = 0x3c then                              -- '<'
+    | r4 :: rest4 =>
+      if r4 = 0x3c then .ok { cur := some ⟨x, .sparqlBaseIRI⟩, inp := r4 :: rest4, env := env }
+      else if !C.isSpace r4 then kwFallback C e x env (c :: rest)
+      else .ok { cur := some ⟨x, .sparqlBaseIRI⟩, inp := rest4, env := env }
+
+/-- `case 'P', 'p'` and (TriG) `case 'G', 'g'`: keyword tail, then a white-space rune, then `k`. -/
+def stepKwSpace (C : Cfg) (e : End) (x : Ectx) (env : Env) (kw : List (Nat × Nat)) (k : Cont) (c : Nat)
+    (rest : List Nat) : FnRes :=
+  match matchKw kw rest with
+  | .eoi => .err (endCls e)
+  | .mismatch => kwFallback C e x env (c :: rest)
+  | .ok r =>
+    match r with
+    | [] => .err (endCls e)
+    | r6 :: rest6 =>
+      if !C.isSpace r6 then kwFallback C e x env (c :: rest)
+      else .ok { cur := some ⟨x, k⟩, inp := rest6, env := env }
+
+/-- The subject starters `<`, `_`, `[`, `(`, `:`/PN_CHARS_BASE of the top-level function. -/
+def stepSubjectStart (C : Cfg) (e : End) (x : Ectx) (env : Env) (c : Nat) (rest : List Nat) : FnRes :=
+  if c = 0x3c then                                   -- '<'
     if C.trig then labelOrSubject x (termIRIREF C e env (c :: rest))
     else .ok { cur := some ⟨x, .subjIRIREF⟩, push := [⟨x, .triplesEnd⟩], inp := c :: rest, env := env }
   else if c = 0x5f then                              -- '_'
     if C.trig then labelOrSubject x (termBNode C e env (c :: rest))
     else .ok { cur := some ⟨x, .subjBNode⟩, push := [⟨x, .triplesEnd⟩], inp := c :: rest, env := env }
   else if c = 0x5b then                              -- '['
-    let (bn, env') := env.fresh
-    if C.trig then .ok { cur := some ⟨x, .tgBracket bn⟩, inp := rest, env := env' }
-    else .ok { cur := some ⟨{ x with subj := some bn }, .subjAnonOrBNPL⟩, inp := rest, env := env' }
+    if C.trig then .ok { cur := some ⟨x, .tgBracket env.fresh.1⟩, inp := rest, env := env.fresh.2 }
+    else .ok { cur := some ⟨{ x with subj := some env.fresh.1 }, .subjAnonOrBNPL⟩, inp := rest, env := env.fresh.2 }
   else if c = 0x28 then                              -- '('
-    let (bn, env') := env.fresh
-    .ok { cur := some ⟨x, .parenTop bn⟩, inp := rest, env := env' }
+    .ok { cur := some ⟨x, .parenTop env.fresh.1⟩, inp := rest, env := env.fresh.2 }
   else if c = 0x3a ∨ C.pnBase c then                 -- ':' or PN_CHARS_BASE
     if C.trig then labelOrSubject x (termPName C e env (c :: rest))
     else .ok { cur := some ⟨x, .subjPName⟩, push := [⟨x, .triplesEnd⟩], inp := c :: rest, env := env }
   else .err .syntax
+
+/-- `reader_scanStatement` / `reader_scan_trigDoc` after the EOF test, without the self push. -/
+def stepStatementRune (C : Cfg) (e : End) (x : Ectx) (env : Env) (c : Nat) (rest : List Nat) : FnRes :=
+  if c = 0x40 then stepAtDirective e x env rest                                   -- '@'
+  else if c = 0x42 ∨ c = 0x62 then stepKwBase C e x env c rest                    -- 'B' 'b'
+  else if c = 0x50 ∨ c = 0x70 then stepKwSpace C e x env (kwCI "REFIX") .sparqlPrefixNS c rest  -- 'P' 'p'
+  else if C.trig ∧ (c = 0x47 ∨ c = 0x67) then stepKwSpace C e x env (kwCI "RAPH") .graphLabel c rest  -- 'G' 'g' (TriG)
+  else if C.trig ∧ c = 0x7b then stepWrappedGraph e x env (.rune c rest)          -- '{' (TriG)
+  else stepSubjectStart C e x env c rest
 
 /-- `reader_scan_collection(r, ectx, r0, openSubject, …)`. -/
 def stepCollection (x : Ectx) (env : Env) (c : Nat) (rest : List Nat) (o : T) : FnRes :=
@@ -478,10 +480,9 @@ def stepObject (C : Cfg) (e : End) (x : Ectx) (env : Env) (c : Nat) (rest : List
   else if c = 0x5f then emitOfTerm x (termBNode C e env (c :: rest))
   else if c = 0x28 then .ok { cur := some ⟨x, .collOpenObj⟩, inp := rest, env := env }
   else if c = 0x5b then
-    let (bn, env') := env.fresh
-    let nx : Ectx := { x with subj := some bn, pred := none }
-    .ok { push := [⟨nx, .bnplEnd⟩, ⟨nx, .polContinue⟩, ⟨nx, .pol⟩], emit := some (mkStmt x bn),
-          inp := rest, env := env' }
+    let nx : Ectx := { x with subj := some env.fresh.1, pred := none }
+    .ok { push := [⟨nx, .bnplEnd⟩, ⟨nx, .polContinue⟩, ⟨nx, .pol⟩], emit := some (mkStmt x env.fresh.1),
+          inp := rest, env := env.fresh.2 }
   else if c = 0x22 ∨ c = 0x27 then
     match C.P.string e (c :: rest) with
     | .panic => .panic
@@ -509,21 +510,19 @@ def stepTriples (C : Cfg) (x : Ectx) (env : Env) (c : Nat) (rest : List Nat) : F
   if c = 0x3c then .ok { cur := some ⟨x, .subjIRIREF⟩, inp := c :: rest, env := env }
   else if c = 0x5f then .ok { cur := some ⟨x, .subjBNode⟩, inp := c :: rest, env := env }
   else if c = 0x5b then
-    let (bn, env') := env.fresh
-    let x' := { x with subj := some bn }
+    let x' := { x with subj := some env.fresh.1 }
     .ok { cur := some ⟨x', .pol⟩,
           push := [⟨x', .polContinue⟩, ⟨x', .pol⟩, ⟨x', .bnplEnd⟩, ⟨x', .polContinue⟩],
-          inp := rest, env := env' }
-  else if c = 0x28 then
-    let (bn, env') := env.fresh
-    .ok { cur := some ⟨x, .parenBlock bn⟩, inp := rest, env := env' }
+          inp := rest, env := env.fresh.2 }
+  else if c = 0x28 then .ok { cur := some ⟨x, .parenBlock env.fresh.1⟩, inp := rest, env := env.fresh.2 }
   else if c = 0x3a ∨ C.pnBase c then .ok { cur := some ⟨x, .subjPName⟩, inp := c :: rest, env := env }
   else .err .syntax
 
 /-- Outer closure of a subject-position '(' ; `top` = pushes `Triples_End` first (document level).
     Ignores `err`. -/
 def stepParen (top : Bool) (x : Ectx) (env : Env) (bn : T) (a : Arg) : FnRes :=
-  let (c, rest) := a.orNul
+  let c := a.orNul.1
+  let rest := a.orNul.2
   let tail : List Frame := if top then [⟨x, .triplesEnd⟩] else []
   if c = 0x29 then
     let nx := { x with subj := some (.iri rdfNil) }
@@ -658,8 +657,8 @@ def stepFn (C : Cfg) (e : End) (k : Cont) (x : Ectx) (env : Env) (a : Arg) : FnR
   | .collOpenObj =>
     match a with
     | .fail => .err (endCls e)
-    | .rune c rest => let (o, env') := env.fresh; stepCollection x env' c rest o
-  | .collOpenSubj o => let (c, rest) := a.orNul; stepCollection x env c rest o
+    | .rune c rest => stepCollection x env.fresh.2 c rest env.fresh.1
+  | .collOpenSubj o => stepCollection x env a.orNul.1 a.orNul.2 o
   | .collContinue =>
     match a with
     | .fail => .err (endCls e)
@@ -667,11 +666,10 @@ def stepFn (C : Cfg) (e : End) (k : Cont) (x : Ectx) (env : Env) (a : Arg) : FnR
       if c = 0x29 then
         .ok { emit := some { s := x.subj, p := some (.iri rdfRest), o := .iri rdfNil, g := x.graph }, inp := rest, env := env }
       else
-        let (nb, env') := env.fresh
-        let nx := { x with subj := some nb }
+        let nx := { x with subj := some env.fresh.1 }
         .ok { cur := some ⟨nx, .object⟩, push := [⟨nx, .collContinue⟩],
-              emit := some { s := x.subj, p := some (.iri rdfRest), o := nb, g := x.graph },
-              inp := c :: rest, env := env' }
+              emit := some { s := x.subj, p := some (.iri rdfRest), o := env.fresh.1, g := x.graph },
+              inp := c :: rest, env := env.fresh.2 }
   | .bnplEnd =>
     match a with
     | .fail => .err (endCls e)
@@ -692,11 +690,10 @@ def stepFn (C : Cfg) (e : End) (k : Cont) (x : Ectx) (env : Env) (a : Arg) : FnR
         | .err t => .err t
         | .ok g r env' => .ok { cur := some ⟨{ x with graph := some g }, .wrappedGraph⟩, inp := r, env := env' }
   | .graphAnonClose =>
-    let (c, rest) := a.orNul
+    let c := a.orNul.1
+    let rest := a.orNul.2
     if c ≠ 0x5d then .err .syntax
-    else
-      let (g, env') := env.fresh
-      .ok { cur := some ⟨{ x with graph := some g }, .wrappedGraph⟩, inp := rest, env := env' }
+    else .ok { cur := some ⟨{ x with graph := some env.fresh.1 }, .wrappedGraph⟩, inp := rest, env := env.fresh.2 }
   | .wrappedGraph => stepWrappedGraph e x env a
   | .wrappedGraphEnd =>
     match a with
@@ -720,7 +717,8 @@ def stepFn (C : Cfg) (e : End) (k : Cont) (x : Ectx) (env : Env) (a : Arg) : FnR
     | .fail => .err (endCls e)
     | .rune c rest => stepTriples C x env c rest
   | .tgE1 v =>
-    let (c, rest) := a.orNul
+    let c := a.orNul.1
+    let rest := a.orNul.2
     if c = 0x7b then
       let x' := { x with graph := some v }
       .ok { cur := some ⟨x', .triplesBlock⟩, push := [⟨x', .wrappedGraphEnd⟩], inp := rest, env := env }
@@ -732,7 +730,8 @@ def stepFn (C : Cfg) (e : End) (k : Cont) (x : Ectx) (env : Env) (a : Arg) : FnR
         .ok { cur := some ⟨x', .polRequired⟩, push := [⟨x', .triplesEnd⟩, ⟨x', .polContinue⟩],
               inp := c :: rest, env := env }
   | .tgBracket bn =>
-    let (c, rest) := a.orNul
+    let c := a.orNul.1
+    let rest := a.orNul.2
     if c = 0x5d then .ok { cur := some ⟨x, .tgE1 bn⟩, inp := rest, env := env }
     else .ok { cur := some ⟨{ x with subj := some bn }, .triples2BNPL⟩, inp := c :: rest, env := env }
   | .triples2BNPL =>
